@@ -397,6 +397,19 @@ type fsCase struct {
 	Fanout int      `json:"fanout,omitempty"`
 	Arg     string  `json:"argument,omitempty"` // OS back end: plain | arg-is-link | arg-is-dangling
 	Backend string  `json:"backend,omitempty"`  // "" (in-memory) | os
+	Ctx     string  `json:"context,omitempty"`  // how the context ends (ctxflavours.go); "": cancel(), or a past deadline for pre-deadline
+}
+
+func (c fsCase) flavour() string { return defaultFlavour(c.Mode, c.Ctx) }
+
+func defaultFlavour(mode, flavour string) string {
+	if flavour != "" {
+		return flavour
+	}
+	if strings.HasSuffix(mode, "pre-deadline") {
+		return "deadline"
+	}
+	return "cancel"
 }
 
 func findEP(name string) *entryPoint {
@@ -425,7 +438,7 @@ func quiesce(sh *shim.Fs) {
 }
 
 // runFS executes one entry point once. mode cancel-at with k<0: no cancellation; pre-*: context done before the call.
-func runFS(ep *entryPoint, spec treeSpec, mode string, k int64, wantFinal bool) (res fsResult, err error) {
+func runFS(ep *entryPoint, spec treeSpec, mode string, k int64, wantFinal bool, flavour string) (res fsResult, err error) {
 	e, err := newEnv(spec, ep.Zip)
 	if err != nil {
 		return res, err
@@ -439,15 +452,11 @@ func runFS(ep *entryPoint, spec treeSpec, mode string, k int64, wantFinal bool) 
 	if mode != "cancel-at" {
 		before = snapshot(e.inner)
 	}
-	ctx, cancel := context.WithCancel(context.Background())
-	defer cancel()
-	switch mode {
-	case "pre-cancelled":
-		cancel()
-	case "pre-deadline":
-		var c2 context.CancelFunc
-		ctx, c2 = context.WithDeadline(context.Background(), time.Now().Add(-time.Second))
-		defer c2()
+	flavour = defaultFlavour(mode, flavour)
+	ctx, endCtx, release := newCtx(flavour, mode != "cancel-at")
+	defer release()
+	if mode != "cancel-at" {
+		endCtx()
 	}
 	var fired atomic.Bool
 	base := e.sh.Count()
@@ -455,8 +464,10 @@ func runFS(ep *entryPoint, spec treeSpec, mode string, k int64, wantFinal bool) 
 	e.sh.Rec = true
 	e.sh.SetHook(func(op *shim.Op) error {
 		if mode == "cancel-at" && op.Seq-base == k {
-			fired.Store(true)
-			cancel()
+			if ctx.Err() == nil { // (a timer-driven deadline may have expired before the k-th operation on a stalled machine: then nothing is claimed)
+				fired.Store(true)
+				endCtx()
+			}
 		}
 		if ep.RenameFails && op.Name == "Rename" {
 			return &os.LinkError{Op: "rename", Old: op.Path, New: op.Path2, Err: errCrossDevice}
@@ -515,8 +526,8 @@ type failure struct {
 }
 
 func checkPre(c fsCase, res fsResult) (fs []failure) {
-	if !isCancelKind(res.Kind) {
-		fs = append(fs, failure{"precancelled-wrong-kind:" + c.EP, fmt.Sprintf("%s with a context already done returned kind %s (%s), not cancelled/timeout", c.EP, res.Kind, res.Err), c})
+	if want := wantKind(c.flavour()); res.Kind != want {
+		fs = append(fs, failure{"precancelled-wrong-kind:" + c.EP, fmt.Sprintf("%s with a context already done (%s) returned kind %s (%s), not %s", c.EP, c.flavour(), res.Kind, res.Err, want), c})
 	}
 	if res.MutAfter > 0 || len(res.Diff) > 0 {
 		fs = append(fs, failure{"precancelled-mutates:" + c.EP, fmt.Sprintf("%s with a context already done issued %d mutating backend operations %v; tree changes %v", c.EP, res.MutAfter, res.OpsAfter, res.Diff), c})
@@ -537,10 +548,10 @@ func checkCancelAt(c fsCase, res fsResult, full fsResult) (fs []failure) {
 		fs = append(fs, failure{"ops-after-cancel-unbounded:" + c.EP, fmt.Sprintf("%s on %d entries, context cancelled inside backend operation %d: %d further backend operations (%d mutating), bound %d; first ones %v",
 			c.EP, c.Spec.entries(), c.K, res.After, res.MutAfter, opsAfterBound, res.OpsAfter), c})
 	}
-	if !isCancelKind(res.Kind) {
-		// the only other acceptable outcome: the work was finished anyway (cancellation came at the very end)
+	if want := wantKind(c.flavour()); res.Kind != want {
+		// the only other acceptable outcome: the work was finished anyway (the context ended at the very end)
 		if !(res.Kind == "nil" && (res.Total == full.Total || sameSnap(res.Final, full.Final))) {
-			fs = append(fs, failure{"cancel-during-wrong-kind:" + c.EP, fmt.Sprintf("%s, context cancelled inside backend operation %d of %d: result kind %s (%s) although the work was not finished", c.EP, c.K, full.Total, res.Kind, res.Err), c})
+			fs = append(fs, failure{"cancel-during-wrong-kind:" + c.EP, fmt.Sprintf("%s, context ended (%s) inside backend operation %d of %d: result kind %s (%s), expected %s (the work was not finished)", c.EP, c.flavour(), c.K, full.Total, res.Kind, res.Err, want), c})
 		}
 	}
 	return
@@ -564,7 +575,7 @@ type sweepStat struct {
 // sweep cancels from inside the k-th backend operation, for every k (stride 1) or for the first/last 30 and a
 // seeded selection in between.  Safe to call from several goroutines (touches no shared state).
 func fsSweep(seed int64, ep *entryPoint, spec treeSpec, stride int64) (st sweepStat) {
-	full, err := runFS(ep, spec, "cancel-at", -1, true)
+	full, err := runFS(ep, spec, "cancel-at", -1, true, "")
 	st = sweepStat{EP: ep.Name, Entries: spec.entries(), Total: full.Total}
 	if err != nil {
 		st.notes = append(st.notes, "setup failed for "+ep.Name+": "+err.Error())
@@ -579,12 +590,13 @@ func fsSweep(seed int64, ep *entryPoint, spec treeSpec, stride int64) (st sweepS
 		if stride > 1 && k > 30 && k < full.Total-30 && (k*2654435761+seed*40503)%stride != 0 {
 			continue
 		}
-		res, err := runFS(ep, spec, "cancel-at", k, false)
+		flavour := instantFlavours[int(k+seed)%len(instantFlavours)] // every way of ending the context, in rotation
+		res, err := runFS(ep, spec, "cancel-at", k, false, flavour)
 		if err != nil {
 			continue
 		}
 		st.Runs++
-		c := fsCase{EP: ep.Name, Spec: spec, Mode: "cancel-at", K: k}
+		c := fsCase{EP: ep.Name, Spec: spec, Mode: "cancel-at", K: k, Ctx: flavour}
 		st.fails = append(st.fails, checkCancelAt(c, res, full)...)
 		if res.Fired {
 			st.Ks = append(st.Ks, k)
